@@ -1077,12 +1077,20 @@ def translate_attach(mol_gen_py):
     env = Env({"self_bond_idx": ("(Z.of_nat i)", "Z"), "other_bond_idx": ("(Z.of_nat j)", "Z"), "len(self.bond_descriptors)": ("(Z.of_nat nself)", "Z"),
                "len(other.bond_descriptors)": ("(Z.of_nat nother)", "Z")}, {},
               {"other_bond_descriptors[other_bond_idx].is_compatible(self.bond_descriptors[self_bond_idx])": ("(is_compatible b a)", "bool")})
+    # the three accessors the properties observe: exactly these RDKit calls on the molecule held
+    for name, want in (("mol", "mol = copy.deepcopy(self._mol)\nChem.SanitizeMol(mol)\nreturn mol"), ("smiles", "mol = self.mol\nreturn Chem.MolToSmiles(mol)"),
+                       ("weight", "return rdDescriptors.HeavyAtomMolWt(self._mol)")):
+        afn = _method(cls, name, ["property"])
+        ask, ats = skeleton(afn)
+        if [a.arg for a in afn.args.args] != ["self"] or ats or not same_skeleton(ask, want):
+            raise Unsupported(f"MolGen.{name} is no longer the plain accessor: " + ask.replace("\n", " / ")[:200])
     fg = _method(cls, "fully_generated", ["property"])
     body = [x for x in fg.body if not (isinstance(x, ast.Expr) and isinstance(x.value, ast.Constant))]
     if len(body) != 1 or not isinstance(body[0], ast.Return):
         raise Unsupported("MolGen.fully_generated")
     out = [
-        "(* generated by harness/translate_sys.py from mol_gen.py (MolGen.attach_other, fully_generated) -- do not edit *)",
+        "(* generated by harness/translate_sys.py from mol_gen.py (MolGen.attach_other, fully_generated; the accessors mol / smiles / weight are",
+        "   compared as text: a sanitised copy of the molecule held, its canonical SMILES, its heavy-atom mass) -- do not edit *)",
         "From Coq Require Import List ZArith QArith Bool.",
         "From GBS Require Import Model.PyStr Model.Num Model.Bond Src.SrcBond.",
         "(* a: the descriptor of this molecule that binds, b: the one of the attached fragment; is_compatible is regenerated from bond.py *)",
@@ -2224,6 +2232,259 @@ def translate_ffsel(ff_py):
     return "\n".join(out) + "\n"
 
 
+def module_skeleton(mod, classname):
+    """skeletons of all module-level functions and of all methods of one class, in source order, as one text; and their decisions"""
+    out, tests = [], {}
+    for n in mod.body:
+        if isinstance(n, ast.FunctionDef):
+            sk, ts = skeleton(n)
+            out.append(f"def {n.name}({', '.join(a.arg for a in n.args.args)}):\n" + "\n".join("    " + l for l in sk.split("\n")))
+            tests[n.name] = ts
+        if isinstance(n, ast.ClassDef) and n.name == classname:
+            for m in n.body:
+                if isinstance(m, ast.FunctionDef):
+                    sk, ts = skeleton(m)
+                    out.append(f"def {classname}__{m.name}({', '.join(a.arg for a in m.args.args)}):\n" + "\n".join("    " + l for l in sk.split("\n")))
+                    tests[m.name] = ts
+                elif not (isinstance(m, ast.Expr) and isinstance(m.value, ast.Constant)):
+                    out.append("CLASS_STATEMENT: " + ast.unparse(m))
+    return "\n".join(out), tests
+
+
+def check_module(py, classname, name, translated):
+    """skeletons of every function of the module and every method of the class = harness/skeletons/<name>.txt; every decision that is not
+    translated (keys in `translated`) = the text recorded in harness/skeletons/<name>.tests.txt.  Returns the decisions."""
+    import os
+    mod = ast.parse(open(py).read())
+    got, tests = module_skeleton(mod, classname)
+    base = os.path.join(os.path.dirname(os.path.abspath(__file__)), "skeletons", name)
+    want = open(base + ".txt").read()
+    gl, wl = got.split("\ndef "), want.split("\ndef ")
+    if len(gl) != len(wl):
+        raise Unsupported(f"functions / methods of {name}.py changed")
+    for g, w in zip(gl, wl):
+        g2, w2 = (g if g.startswith("def ") else "def " + g), (w if w.startswith("def ") else "def " + w)
+        if "CLASS_STATEMENT" in g2 or "CLASS_STATEMENT" in w2:
+            if g2 != w2:
+                raise Unsupported(f"class-level statements of {classname} changed: " + g2[-200:].replace("\n", " / "))
+            continue
+        if not same_skeleton(g2, w2):
+            import difflib
+            d = [l for l in difflib.unified_diff(w2.split("\n"), g2.split("\n"), lineterm="", n=0) if not l.startswith(("---", "+++", "@@"))]
+            raise Unsupported("statement skeleton of " + g2.split("(")[0][4:] + " changed: " + " / ".join(d[:6]))
+    recorded = {}
+    for line in open(base + ".tests.txt").read().split("\n"):
+        if line.strip():
+            fn, k, text = line.split(" ", 2)
+            recorded[(fn, int(k))] = text
+    seen = set()
+    for fn, ts in tests.items():
+        for k, t in enumerate(ts):
+            seen.add((fn, k))
+            if (fn, k) in translated:
+                continue
+            if (fn, k) not in recorded or ast.dump(t) != ast.dump(ast.parse(recorded[(fn, k)], mode="eval").body):
+                raise Unsupported(f"decision {k} of {fn} changed: {ast.unparse(t)[:100]}")
+    if seen != set(recorded):
+        raise Unsupported(f"number of decisions in {name}.py changed")
+    return tests
+
+
+def translate_agen(gg_py):
+    """graph_generate.py: every function of the module and every method of AtomGraph -> Src/SrcAGen.v (skeletons compared with
+    harness/skeletons/graph_generate.txt; the edge classification, the growth / termination decisions and the flags of _add_node regenerated)"""
+    translated = {("_is_stochastic_edge", 0), ("_is_termination_edge", 0), ("_is_transition_edge", 0), ("_is_static_edge", 0), ("_fill_static_edges", 0),
+                  ("_next_stochastic_edge", 0), ("_fill_stochastic_edges", 1), ("_next_termination_edge", 0), ("_next_termination_edge", 1),
+                  ("_add_node", 0), ("_add_node", 1), ("_add_node", 2)}
+    tests = check_module(gg_py, "AtomGraph", "graph_generate", translated)
+    env = Env({"weight": ("w", "Q"), "node": ("(Z.of_nat node)", "Z"), "len(edge_list)": ("(Z.of_nat nedges)", "Z")},
+              {"exempt_node": ("ex", "optZ"), "transition_allowed": ("allowed", "bool"), "termination_allowed": ("allowed", "bool"), "stochastic_allowed": ("allowed", "bool")},
+              {"edge['stochastic_weight']": ("w", "Q"), "edge['termination_weight']": ("w", "Q"), "edge['transition_weight']": ("w", "Q"), "edge['static_weight']": ("w", "Q"),
+               "self.graph.nodes[current_atom]['stochastic_node']": ("(Z.of_nat sn)", "Z"), "self.mw[-1]": ("mw", "Q"),
+               "get_target_mw(self, exempt_node, swap_self)": ("T", "Q"), "exempt_node != node": ("(negb (Z.eqb exz (Z.of_nat node)))", "bool"),
+               "_is_transition_edge(edge_data)": ("is_kind", "bool"), "_is_termination_edge(edge_data)": ("is_kind", "bool"), "_is_stochastic_edge(edge_data)": ("is_kind", "bool")})
+    def T(fn, k):
+        return env.truth(tests[fn][k])
+    out = [
+        "(* generated by harness/translate_sys.py from graph_generate.py (module functions and AtomGraph) -- do not edit *)",
+        "From Coq Require Import List ZArith QArith Bool.",
+        "From GBS Require Import Model.PyStr Model.Num Model.Bond Model.Sys.",
+        "Open Scope Q_scope.",
+        "(* the statement skeletons of all fifteen functions / methods are the ones Model/AGen.v was written against (harness/skeletons/graph_generate.txt) *)",
+        f"Definition ag_is_stochastic (w : Q) : bool := {T('_is_stochastic_edge', 0)}.",
+        f"Definition ag_is_termination (w : Q) : bool := {T('_is_termination_edge', 0)}.",
+        f"Definition ag_is_transition (w : Q) : bool := {T('_is_transition_edge', 0)}.",
+        f"Definition ag_is_static (w : Q) : bool := {T('_is_static_edge', 0)}.",
+        f"Definition ag_new_atom (sn node : nat) : bool := {T('_fill_static_edges', 0)}.",
+        f"Definition ag_has_options (w : Q) : bool := {T('_next_stochastic_edge', 0)}.",
+        f"Definition ag_grow (mw T : Q) : bool := {T('_fill_stochastic_edges', 1)}.",
+        f"Definition ag_may_terminate (ex : option Z) (exz : Z) (node : nat) : bool := {T('_next_termination_edge', 0)}.",
+        f"Definition ag_has_terminations (nedges : nat) : bool := {T('_next_termination_edge', 1)}.",
+        f"Definition ag_keep_transition (is_kind allowed : bool) : bool := {T('_add_node', 0)}.",
+        f"Definition ag_keep_termination (is_kind allowed : bool) : bool := {T('_add_node', 1)}.",
+        f"Definition ag_keep_stochastic (is_kind allowed : bool) : bool := {T('_add_node', 2)}.",
+    ]
+    return "\n".join(out) + "\n"
+
+
+def translate_agraph(sag_py):
+    """stochastic_atom_graph.py: every function and every method of StochasticAtomGraph -> Src/SrcAGraph.v"""
+    translated = {("_add_transition_bonds", 0), ("_add_stochastic_bonds", 0), ("_add_stochastic_bonds", 1), ("_add_stochastic_bonds", 2), ("_add_stochastic_bonds", 3),
+                  ("_add_stochastic_bonds", 4), ("_add_stochastic_bonds", 5)}
+    tests = check_module(sag_py, "StochasticAtomGraph", "stochastic_atom_graph", translated)
+    env = Env({"graph_bd_token_idx": ("(Z.of_nat ti)", "Z"), "other_bd_token_idx": ("(Z.of_nat tj)", "Z"), "len(element.repeat_tokens)": ("(Z.of_nat nr)", "Z"), "p": ("p", "Q")},
+              {"graph_bd.transitions": ("(d_trans d)", "optlist"), "other_bd.weight": ("(wq o)", "Q")},
+              {"graph_bd.is_compatible(other_bd)": ("(is_compatible d o)", "bool"), "bd_lhs.is_compatible(bd_rhs)": ("(is_compatible dl dr)", "bool")})
+    def T(fn, k):
+        return env.truth(tests[fn][k])
+    out = [
+        "(* generated by harness/translate_sys.py from stochastic_atom_graph.py -- do not edit *)",
+        "From Coq Require Import List ZArith QArith Bool.",
+        "From GBS Require Import Model.PyStr Model.Num Model.Bond Model.Sys Model.Select Model.Gen Model.RGraph Src.SrcBond.",
+        "Open Scope Q_scope.",
+        "(* the statement skeletons of all functions / methods are the ones Model/AGraph.v was written against (harness/skeletons/stochastic_atom_graph.txt);",
+        "   d: the descriptor the links leave, on token ti; o: a candidate on token tj; nr: number of repeat tokens; is_compatible regenerated from bond.py *)",
+        f"Definition sa_pair_compatible (dl dr : descr) : bool := {T('_add_transition_bonds', 0)}.",
+        f"Definition sa_from_end_group (ti nr : nat) : bool := {T('_add_stochastic_bonds', 0)}.",
+        f"Definition sa_has_list (d : descr) : bool := {T('_add_stochastic_bonds', 1)}.",
+        f"Definition sa_list_compatible (d o : descr) : bool := {T('_add_stochastic_bonds', 2)}.",
+        f"Definition sa_list_positive (p : Q) : bool := {T('_add_stochastic_bonds', 3)}.",
+        f"Definition sa_weight_edge (d o : descr) : bool := {T('_add_stochastic_bonds', 4)}.",
+        f"Definition sa_into_repeat (tj nr : nat) : bool := {T('_add_stochastic_bonds', 5)}.",
+    ]
+    return "\n".join(out) + "\n"
+
+
+def translate_distparams(distribution_py):
+    """distribution.py: the constructors of the six classes -> Src/SrcDistParams.v: which written parameter becomes which argument of which
+    scipy law (order of the tuple, float / int conversion, keyword of the constructor call)"""
+    mod = ast.parse(open(distribution_py).read())
+    spec = {"Gauss": ("gauss", "norm", ["loc", "scale"], "LNorm"), "Uniform": ("uniform", "uniform", ["loc", "scale"], "LUnif"),
+            "Poisson": ("poisson", "poisson", ["mu"], "LPoisson")}
+    custom = {"FlorySchulz": ("flory_schulz", "flory_schulz_gen", ["_a"], "LFlorySchulz"), "SchulzZimm": ("schulz_zimm", "schulz_zimm_gen", ["_z", "_Mn"], "LSchulzZimm"),
+              "LogNormal": ("log_normal", "log_normal_gen", ["_M", "_D"], "LLogNormal")}
+    defs = []
+    for cname in ["Gauss", "Uniform", "SchulzZimm", "LogNormal", "Poisson", "FlorySchulz"]:
+        fn = _method(_class(mod, cname), "__init__", [])
+        if [a.arg for a in fn.args.args] != ["self", "raw_text"]:
+            raise Unsupported(f"signature of {cname}.__init__")
+        body = [x for x in fn.body if not (isinstance(x, ast.Expr) and isinstance(x.value, ast.Constant))]
+        prefix = (spec.get(cname) or custom.get(cname))[0]
+        # super().__init__(raw_text); if not self._raw_text.startswith(<prefix>): raise
+        if len(body) < 3 or ast.unparse(body[0]) != "super().__init__(raw_text)" or not isinstance(body[1], ast.If) or ast.unparse(body[1].test) != f"not self._raw_text.startswith('{prefix}')":
+            raise Unsupported(f"{cname}.__init__: head")
+        fields = {}      # field -> Coq term over the written parameters p0, p1
+        call = None
+        for st in body[2:]:
+            if not isinstance(st, ast.Assign) or len(st.targets) != 1:
+                raise Unsupported(f"{cname}.__init__: statement {ast.unparse(st)[:60]}")
+            tgt, val = st.targets[0], st.value
+            src = f"self._raw_text[len('{prefix}'):]"
+            if isinstance(tgt, ast.Tuple) and ast.unparse(val) == f"make_tuple({src})":
+                for k, e in enumerate(tgt.elts):
+                    fields[ast.unparse(e)] = f"p{k}"
+            elif ast.unparse(val) == f"float(make_tuple({src}))" or ast.unparse(val) == f"float(self._raw_text[len('{prefix}') + 1:-1])":
+                fields[ast.unparse(tgt)] = "p0"
+            elif isinstance(val, ast.Call) and isinstance(val.func, ast.Name) and val.func.id in ("float", "int") and len(val.args) == 1 and ast.unparse(val.args[0]) == ast.unparse(tgt):
+                if ast.unparse(tgt) not in fields:
+                    raise Unsupported(f"{cname}.__init__: conversion of an unset field")
+                if val.func.id == "int":
+                    fields[ast.unparse(tgt)] = f"(trunc {fields[ast.unparse(tgt)]})"
+            elif ast.unparse(tgt) == "self._distribution":
+                call = val
+            else:
+                env = Env({}, {k: (v, "Q") for k, v in fields.items()})
+                t, ty = env.term(val)
+                if ty != "Q":
+                    raise Unsupported(f"{cname}.__init__: field expression")
+                fields[ast.unparse(tgt)] = t
+        if not isinstance(call, ast.Call):
+            raise Unsupported(f"{cname}.__init__: no scipy law")
+        env = Env({}, {k: (v, "Q") for k, v in fields.items()})
+        if cname in spec:
+            _, law, kws, ctor = spec[cname]
+            if ast.unparse(call.func) != f"stats.{law}" or call.args or [k.arg for k in call.keywords] != kws:
+                raise Unsupported(f"{cname}.__init__: constructor call {ast.unparse(call)[:80]}")
+            args = [env.term(k.value)[0] for k in call.keywords]
+        else:
+            _, gen, used, ctor = custom[cname]
+            if ast.unparse(call.func) != f"self.{gen}" or call.args or [k.arg for k in call.keywords] != ["name"]:
+                raise Unsupported(f"{cname}.__init__: constructor call {ast.unparse(call)[:80]}")
+            args = []
+            for u in used:
+                if "self." + u not in fields:
+                    raise Unsupported(f"{cname}.__init__: field {u}")
+                args.append(fields["self." + u])
+        n = 1 if cname in ("Poisson", "FlorySchulz") else 2
+        ps = " ".join(f"p{k}" for k in range(n))
+        defs.append(f"Definition params_{cname} ({ps} : Q) : law_spec := {ctor} {' '.join(args)}.")
+    out = [
+        "(* generated by harness/translate_sys.py from distribution.py (the constructors of the six classes) -- do not edit *)",
+        "From Coq Require Import List ZArith QArith Bool.",
+        "From GBS Require Import Model.PyStr Model.DistFam Model.Dist.",
+        "Open Scope Q_scope.",
+        "(* p0, p1: the numbers written in the notation, in the written order; trunc: Python int() *)",
+    ] + defs
+    return "\n".join(out) + "\n"
+
+
+STARTING_TOKENS_SKELETON = '''start_element = big_mol.elements[0]
+start_fragments = []
+start_probabilities = []
+if TEST0:
+    start_fragments.append(start_element)
+    start_probabilities.append(1.0)
+if TEST1:
+    end_weights = []
+    for end_token in start_element.end_tokens:
+        start_fragments.append(end_token)
+        weight = 0
+        for bd in end_token.bond_descriptors:
+            weight += bd.weight
+        end_weights.append(weight)
+    end_weights = np.asarray(end_weights)
+    end_weights /= np.sum(end_weights)
+    start_probabilities += list(end_weights)
+if TEST2:
+    raise ValueError
+return (start_fragments, start_probabilities)'''
+
+REMEMBER_ADD = {"__init__": (["self", "value"], "self._value = value\nself._previous = 0.0"), "value": (["self"], "return self._value"),
+                "previous": (["self"], "return self._previous"),
+                "__iadd__": (["self", "other"], "old_value = self._value\nself._value += other\nself._previous = old_value\nreturn self"),
+                "__add__": (["self", "other"], "tmp = copy(self)\ntmp += other\nreturn tmp")}
+
+
+def translate_prob(mol_prob_py):
+    """mol_prob.py: the interval bookkeeping (class RememberAdd) and the start law (get_starting_tokens) -> Src/SrcProb.v.  The sub-structure
+    search itself is not translated (it is not modelled)."""
+    mod = ast.parse(open(mol_prob_py).read())
+    ts = _check_fn(_module_fn(mod, "get_starting_tokens"), ["smiles", "big_mol"], [], STARTING_TOKENS_SKELETON, 3, "get_starting_tokens")
+    if [ast.unparse(t) for t in ts] != ["isinstance(start_element, SmilesToken)", "isinstance(start_element, Stochastic)", "len(start_fragments) <= 0"]:
+        raise Unsupported("decisions of get_starting_tokens")
+    cls = _class(mod, "RememberAdd")
+    for name, (args, skel) in REMEMBER_ADD.items():
+        r = [n for n in cls.body if isinstance(n, ast.FunctionDef) and n.name == name]
+        if len(r) != 1 or [a.arg for a in r[0].args.args] != args:
+            raise Unsupported("RememberAdd." + name)
+        sk, t2 = skeleton(r[0])
+        if t2 or not same_skeleton(sk, skel):
+            raise Unsupported(f"statement skeleton of RememberAdd.{name} changed: " + sk.replace("\n", " / ")[:200])
+    out = [
+        "(* generated by harness/translate_sys.py from mol_prob.py (class RememberAdd, get_starting_tokens; skeletons compared as text) -- do not edit *)",
+        "From Coq Require Import List ZArith QArith Bool.",
+        "Open Scope Q_scope.",
+        "(* RememberAdd(value): (value, previous = 0.0); x += m: (value + m, previous = the old value).  Written out from the checked statements: *)",
+        "Definition ra_new (value : Q) : Q * Q := (value, 0).",
+        "Definition ra_iadd (x : Q * Q) (other : Q) : Q * Q := (fst x + other, fst x).",
+        "(* get_starting_tokens: a leading token starts with probability 1; a leading object starts with one of its end tokens, with the sum of the",
+        "   weights of that token's descriptors, normalised over the end tokens *)",
+        "Definition start_weight (descriptor_weights : list Q) : Q := fold_left Qplus descriptor_weights 0.",
+        "Definition start_law (tokens : list (list Q)) : list Q := map (fun t => start_weight t / fold_left Qplus (map start_weight tokens) 0) tokens.",
+    ]
+    return "\n".join(out) + "\n"
+
+
 def _power_expr(e):
     """arithmetic over a : Q and k : nat with integer powers (a ** 2, x ** (k - 1))"""
     if isinstance(e, ast.Name) and e.id == "a":
@@ -2268,3 +2529,7 @@ if __name__ == "__main__":
     print(translate_descrprint(base + "/bond.py"))
     print(translate_printers(base + "/token.py"))
     print(translate_ffsel(base + "/forcefield_helper.py"))
+    print(translate_agen(base + "/graph_generate.py"))
+    print(translate_agraph(base + "/stochastic_atom_graph.py"))
+    print(translate_distparams(base + "/distribution.py"))
+    print(translate_prob(base + "/mol_prob.py"))
